@@ -218,6 +218,7 @@ func (e *End) Write(p []byte) (int, error) {
 	gone := peer.closed
 	if !gone {
 		switch {
+		case act == Fail:
 		case e.stream || act == Pass:
 			peer.q = append(peer.q, b)
 		case act == Dup:
@@ -230,7 +231,7 @@ func (e *End) Write(p []byte) (int, error) {
 	if gone && e.stream {
 		return 0, io.ErrClosedPipe
 	}
-	if act == Fail && !e.stream {
+	if act == Fail {
 		return 0, ErrSend
 	}
 	return len(p), nil
